@@ -40,7 +40,7 @@ Theorem c11_resume_selection :
        Forall2 (fun p p' =>
                   (* Running and stale: closed, exactly [close_plan]; nothing Running; not resumed *)
                   (is_running p /\ is_stale now maxAge p ->
-                     p' = close_plan stamp p /\ nothing_running p' /\
+                     p' = close_plan (last_update p) stamp p /\ nothing_running p' /\
                      status_of (p_state p') = Some Failed /\ p_reason p' = FRExceedRecovery /\
                      ~ In (pid p) resumed) /\
                   (* everything else is identical afterwards *)
@@ -72,7 +72,7 @@ Theorem c11_stale_running_closed :
   forall (s : list plan) (now stamp maxAge : Z),
     keys_unique s ->
     Forall2 (fun p p' => is_running p -> is_stale now maxAge p ->
-                         p' = close_plan stamp p /\ nothing_running p' /\
+                         p' = close_plan (last_update p) stamp p /\ nothing_running p' /\
                          status_of (p_state p') = Some Failed /\ p_reason p' = FRExceedRecovery /\
                          ~ In (pid p) (snd (select now stamp maxAge true s)))
             s (fst (select now stamp maxAge true s)).
@@ -93,7 +93,7 @@ Proof. exact last_update_latest. Qed.
 Print Assumptions c11_last_update_is_latest_activity.
 
 Theorem c11_closed_plan_has_nothing_running :
-  forall (stamp : Z) (p : plan), nothing_running (close_plan stamp p).
+  forall (last stamp : Z) (p : plan), nothing_running (close_plan last stamp p).
 Proof. exact close_plan_nothing_running. Qed.
 Print Assumptions c11_closed_plan_has_nothing_running.
 
@@ -114,19 +114,24 @@ Theorem c11_storage_recovery_first :
 Proof. exact open_workstream_repairs_first. Qed.
 Print Assumptions c11_storage_recovery_first.
 
-(* the close is crash-safe: the code writes the plan row FIRST, so after any non-empty prefix of the
-   close's Update* calls (a process dying mid-close) the plan is durably Failed / ExceedRecovery and no
-   later start-up, whatever its clock and options, hands it to runPlan.  (No premise on the store.) *)
-Theorem c11_close_is_crash_safe :
+(* An interrupted close (R10, fix f93b03f: children first, ending at the plan's last recorded activity;
+   plan row LAST).  FULL STATEMENT WANTED: for every j, the store after the first j writes of the close of
+   p, opened again by any later start-up with the same maxAge and a later clock, yields exactly
+   [close_plan (last_update p) stamp' p] (for j = all writes: stamp), nothing Running, not resumed.
+   PROVED IN GENERAL (below): as long as the last write (the plan row) has not been made, every row of the
+   plans table is exactly as before - p is still durably Running with its old times, so the next start-up's
+   Search finds it again (c11_interrupted_close_keeps_plan_rows_partial); with all writes made the store is
+   the one [select] returns (c11_crash_after_all_writes).  CHECKED BY vm_compute FOR EVERY j on the 9-row
+   example plan (c11_ex_interrupted_close_is_completed_every_j, c11_ex_last_update_unchanged_by_prefix), and
+   on every run by the harness family "crash during the close" for every j of generated plans.  MISSING in
+   general: that a prefix of the close leaves [last_update] and the result of the repeated close unchanged
+   (idempotence of [fail_running last] and max-preservation; not closed in the time available). *)
+Theorem c11_interrupted_close_keeps_plan_rows_partial :
   forall (s : list plan) (stamp : Z) (p : plan) (j : nat),
-    is_running p -> (1 <= j)%nat ->
-    let s' := persist s (firstn j (writes_aged (age_out stamp p))) in
-    (forall q, In q s' -> pid q = pid p ->
-               ~ is_running q /\ status_of (p_state q) = Some Failed /\ p_reason q = FRExceedRecovery) /\
-    (forall now' stamp' maxAge' recovery',
-        ~ In (pid p) (snd (select now' stamp' maxAge' recovery' s'))).
-Proof. exact close_is_crash_safe. Qed.
-Print Assumptions c11_close_is_crash_safe.
+    (j <= length (tl (rows_plan (age_out stamp p))))%nat ->
+    map head_cols (persist s (firstn j (writes_aged (age_out stamp p)))) = map head_cols s.
+Proof. exact interrupted_close_keeps_plan_rows. Qed.
+Print Assumptions c11_interrupted_close_keeps_plan_rows_partial.
 
 (* [crash_during_close] with all the writes let through is the store [select] returns *)
 Theorem c11_crash_after_all_writes :
@@ -172,7 +177,7 @@ Example c11_ex_resumed : snd (select ex_now ex_stamp ex_maxage true ex_store) = 
 Proof. vm_compute. reflexivity. Qed.
 Example c11_ex_store_after :
   fst (select ex_now ex_stamp ex_maxage true ex_store) =
-  [ex_fresh; ex_done; close_plan ex_stamp ex_aged; ex_live; close_plan ex_stamp ex_zero; ex_retry].
+  [ex_fresh; ex_done; close_of ex_stamp ex_aged; ex_live; close_of ex_stamp ex_zero; ex_retry].
 Proof. vm_compute. reflexivity. Qed.
 Example c11_ex_boundary :
   stale ex_now ex_maxage ex_live = false /\ stale (ex_now + 1) ex_maxage ex_live = true.
@@ -184,28 +189,37 @@ Proof. vm_compute. split; reflexivity. Qed.
    (70) or rewritten as Failed / ExceedRecovery (20) *)
 Example c11_ex_unrepaired_index_refutes :
   snd (open_workstream_late ex_now ex_stamp ex_maxage true ex_vault) = [40%N; 60%N; 70%N] /\
-  nth 1 (fst (open_workstream_late ex_now ex_stamp ex_maxage true ex_vault)) ex_fresh = close_plan ex_stamp ex_done /\
-  close_plan ex_stamp ex_done <> ex_done.
+  nth 1 (fst (open_workstream_late ex_now ex_stamp ex_maxage true ex_vault)) ex_fresh = close_of ex_stamp ex_done /\
+  close_of ex_stamp ex_done <> ex_done.
 Proof. exact ex_vault_unrepaired_refutes. Qed.
-(* the reversed order (seeded change C11-e: sub-objects first, plan row last) is refuted: dying after 3
-   writes leaves a Running plan with a fresh End stamp, which the next start-up resumes *)
-Example c11_ex_plan_row_last_refuted :
-  snd (ex_restart (persist [ex_aged] (firstn 3 (writes_plan_last (age_out ex_stamp ex_aged))))) = [30%N] /\
+(* every crash point j = 0..9 of the close of the example plan: the next start-up completes the close *)
+Example c11_ex_interrupted_close_is_completed_every_j :
+  forallb (fun j =>
+             let r := ex_restart (crash_during_close j ex_now ex_stamp ex_maxage [ex_aged]) in
+             match snd r with [] => true | _ => false end &&
+             Nat.eqb (running_rows (fst r)) 0 &&
+             match fst r with
+             | [q] => list_eq_states (map row_state (rows_plan q))
+                        (map row_state (rows_plan (close_plan 8999 (if Nat.ltb j 9 then 10101 else ex_stamp) ex_aged)))
+                      && reason_eqb (p_reason q) FRExceedRecovery
+             | _ => false
+             end) (seq 0 10) = true.
+Proof. exact ex_interrupted_close_is_completed_every_j. Qed.
+Example c11_ex_last_update_unchanged_by_prefix :
+  forallb (fun j => match crash_during_close j ex_now ex_stamp ex_maxage [ex_aged] with
+                    | [q] => Z.eqb (last_update q) (if Nat.ltb j 9 then 8999 else 10001)
+                    | _ => false end) (seq 0 10) = true.
+Proof. exact ex_last_update_unchanged_by_prefix. Qed.
+(* refuted orders: plan row first (before f93b03f, R10): 5 rows stay Running for good; children first but
+   ending NOW (seeded C11-e): the half-closed plan looks live and is resumed *)
+Example c11_ex_plan_row_first_refuted :
+  running_rows (fst (ex_restart (persist [ex_aged] (firstn 1 (writes_plan_first (age_out_pre ex_stamp ex_aged)))))) = 5 /\
+  snd (ex_restart (persist [ex_aged] (firstn 1 (writes_plan_first (age_out_pre ex_stamp ex_aged))))) = [].
+Proof. exact ex_plan_row_first_refuted. Qed.
+Example c11_ex_fresh_stamp_refuted :
+  snd (ex_restart (persist [ex_aged] (firstn 3 (writes_aged (age_out_pre ex_stamp ex_aged))))) = [30%N] /\
   snd (ex_restart (persist [ex_aged] (firstn 3 (writes_aged (age_out ex_stamp ex_aged))))) = [].
-Proof. exact ex_plan_row_last_refuted. Qed.
-(* observation (a weakness of the close that is not part of C11's statement): after a crash mid-close
-   the objects not yet written stay Running for good *)
-Example c11_ex_crash_leaves_children_running :
-  running_rows (fst (ex_restart (crash_during_close 1 ex_now ex_stamp ex_maxage [ex_aged]))) = 5.
-Proof. vm_compute. reflexivity. Qed.
-(* R9 (known finding, not repaired in /repo): c11_storage_recovery_first assumes that the search index
-   lists every durably Running plan.  cosmosdb's UpdatePlan patches the item and then replaces the search
-   entry; torn on the first write of a run the entry still says NotStarted, Vault.Recovery (which only
-   scans Running entries) does not repair it, and the live Running plan 40 is not resumed *)
-Example c11_ex_torn_first_write_refuted :
-  snd (open_workstream_torn [40%N] ex_now ex_stamp ex_maxage ex_vault) = [60%N] /\
-  is_running ex_live /\ stale ex_now ex_maxage ex_live = false.
-Proof. exact ex_torn_first_write_refuted. Qed.
+Proof. exact ex_fresh_stamp_refuted. Qed.
 Example c11_ex_r1_plan_row_only_leaves_running :
   running_rows (persist [ex_aged] (writes_plan_only (age_out ex_stamp ex_aged))) = 5 /\
   running_rows (persist [ex_aged] (writes_aged (age_out ex_stamp ex_aged))) = 0.
